@@ -15,6 +15,8 @@ pub trait TokComp: Component + Send + Sync + Default + Sized + 'static {
     fn js(&self) -> serde_json::Value {
         serde_json::json!([self.cid(), self.val()])
     }
+    /// the library handed this value back to the caller, who is about to drop it
+    fn on_return(&self) {}
 }
 
 macro_rules! tok_comp {
@@ -95,6 +97,48 @@ macro_rules! zst_comp {
     };
 }
 
+
+/// Plain-data components: no destructor (`needs_drop` is false), so their
+/// destruction cannot be observed; only creation and being handed back are
+/// recorded (see `ledger::settle_plain`).
+macro_rules! plain_comp {
+    ($name:ident, $kind:expr, $storage:ty) => {
+        #[derive(Debug, Clone, Copy)]
+        pub struct $name<const N: u8> {
+            cid: u32,
+            val: u32,
+        }
+        impl<const N: u8> Component for $name<N> {
+            type Storage = $storage;
+        }
+        impl<const N: u8> Default for $name<N> {
+            fn default() -> Self {
+                $name { cid: 0, val: 0 }
+            }
+        }
+        impl<const N: u8> TokComp for $name<N> {
+            const ZST: bool = false;
+            const KIND: &'static str = $kind;
+            fn new(cid: u32, val: u32) -> Self {
+                ledger::created_plain(cid);
+                $name { cid, val }
+            }
+            fn cid(&self) -> u32 {
+                self.cid
+            }
+            fn val(&self) -> u32 {
+                self.val
+            }
+            fn set_val(&mut self, v: u32) {
+                self.val = v;
+            }
+            fn on_return(&self) {
+                ledger::returned_plain(self.cid);
+            }
+        }
+    };
+}
+
 tok_comp!(CVec, "vec", VecStorage<Self>);
 tok_comp!(CDense, "dense", DenseVecStorage<Self>);
 tok_comp!(CHash, "hash", HashMapStorage<Self>);
@@ -116,7 +160,15 @@ tok_comp!(CDBTree, "d_btree", DerefFlaggedStorage<Self, BTreeStorage<Self>>);
 tok_comp!(CDDefVec, "d_defvec", DerefFlaggedStorage<Self, DefaultVecStorage<Self>>);
 zst_comp!(CDNull, "d_null", DerefFlaggedStorage<Self, NullStorage<Self>>);
 
+plain_comp!(CPVec, "p_vec", VecStorage<Self>);
+plain_comp!(CPDense, "p_dense", DenseVecStorage<Self>);
+plain_comp!(CPHash, "p_hash", HashMapStorage<Self>);
+plain_comp!(CPBTree, "p_btree", BTreeStorage<Self>);
+plain_comp!(CPDefVec, "p_defvec", DefaultVecStorage<Self>);
+plain_comp!(CPFHash, "pf_hash", FlaggedStorage<Self, HashMapStorage<Self>>);
+
 pub const KINDS: &[&str] = &[
     "vec", "dense", "hash", "btree", "defvec", "null", "f_vec", "f_dense", "f_hash", "f_btree",
     "f_defvec", "f_null", "d_vec", "d_dense", "d_hash", "d_btree", "d_defvec", "d_null",
+    "p_vec", "p_dense", "p_hash", "p_btree", "p_defvec", "pf_hash",
 ];
